@@ -79,7 +79,7 @@ func (a *AEAD) Seal(dst, nonce, plaintext, additionalData []byte) []byte {
 		DstOff: Off(dst), InOff: Off(plaintext), SameBuf: SameObject(dst[:cap(dst)], plaintext)}
 	ret, out := sliceForAppend(dst, len(plaintext)+16)
 	Havoc(out)
-	assumeNotAllZero(out[len(out)-16:]) // an all-zero tag has probability 2^-128
+	assumeNotAllZero(out[len(out)-16:][:16]) // an all-zero tag has probability 2^-128
 	c.Out = clone(out)
 	Seals = append(Seals, c)
 	Event("aead.seal")
